@@ -18,7 +18,7 @@ def find_method(ctx, meth, who):
 def text_layout(ctx):
     run = ctx.run
     calib = calibrate()
-    NMAX = 3
+    NMAX = 3 if ctx.quick else 5
     run.bounds['text layout'] = f'N = 0..{NMAX} columns, headers on/off, each value present or absent, every write outcome'
     fam = run.family('text.layout', 'with N selections every row is N fields, N-1 item separators and one row separator; the header row lists the N names in order; csv/--headers with N = 0 fails before writing')
     TP = ctx.structs['TextProcess']; TPR = ctx.structs['TextPrinter']; TO = ctx.structs['TextOutputOptions']
@@ -168,7 +168,7 @@ def rfc4180_field(ref, pc, bs):
 def csv_quoting(ctx):
     run = ctx.run
     calib = calibrate()
-    ns = (1, 2)
+    ns = (1, 2) if ctx.quick else (1, 2, 3)
     run.bounds['csv quoting'] = f'strings of {ns} code points, each any Unicode scalar value; csv preset (quote `"` doubled, prefix/postfix `"`)'
     fam = run.family('text.csv_string', 'a csv string field is `"`-quoted with every `"` doubled: a standard RFC 4180 reader recovers exactly the input code points, whatever quotes, commas or line breaks they contain')
     TPR = ctx.structs['TextPrinter']; TO = ctx.structs['TextOutputOptions']
